@@ -12,6 +12,23 @@ Family (bounded-exhaustive): one program per cell of
   x output kind {PIE (dynamic), static-PIE, shared}
   x packing of relative relocations {off, -z pack-relative-relocs}  (thorough: also
     --pack-dyn-relocs=relr, and two-word programs over every pair of (pad, offset parity) cells)
+plus, in both tiers, the section-kind family: the address words live in each kind of section that
+a linker treats specially -
+    .data, .data.rel.ro, a custom writable section, .tdata (pointer slots in the TLS template),
+    .init_array, .fini_array, .preinit_array (executables only), .ctors, .dtors,
+    priority variants (.ctors.200/.ctors.100/.init_array.150/.ctors; .dtors.5/.dtors.300/
+    .fini_array.7/.fini_array; .init_array.300/.init_array.5/.init_array)
+- 3 to 5 words per input section whose targets mix kinds (non-exported function, exported function
+(symbolic relocation in a shared object), IFUNC, undefined weak (no relocation), local data +
+addend), in two rotations, x output kind x RELR off/on x architecture. GNU ld and wild merge
+.ctors* / .dtors* input sections into .init_array / .fini_array with the words of each input
+section REVERSED and sort priority-suffixed sections; the expected slot -> target map therefore
+comes from the generator (input order, reversed inside .ctors*/.dtors* input sections; every input
+section is found through its own start label), is calibrated on GNU ld's output of every x86-64
+member (the referee) and on lld (which keeps .ctors/.dtors forward), and every slot's value at
+base 0 must be the expected target (`slot-target`) in addition to the image / coverage / RELR
+rules. (.ctors/.dtors reversal is the only transformation in elf_writer.rs that moves words after
+relocation processing; priority sorting moves whole input sections before it.)
 Every member is linked by the real wild through the in-process server. Objects are written with
 elfgen (no subprocess); the x86-64 PIE members carry a self-check in _start (assembled by gas, six
 cached variants) and are run natively twice under ASLR.
@@ -802,7 +819,9 @@ def main():
         "rule": "product of arch x probe alignment {1,2,8} x pad {0,1} x word offset {0,1,2,7,8} x "
                 "target kind (x86-64: 7, AArch64: 5) x output kind {pie, static-pie, shared} x "
                 "relr setting (quick: off, -z pack-relative-relocs; thorough: also "
-                "--pack-dyn-relocs=relr and the two-word programs), enumerated completely. "
+                "--pack-dyn-relocs=relr and the two-word programs), enumerated completely; plus "
+                "the section-kind family (12 section kinds x 2 rotations x 3 output kinds x relr "
+                "off/on x 2 architectures, .preinit_array not in shared objects), also complete. "
                 "distinct_nontrivial = distinct (arch, kind, relr, alignment, observed section "
                 "address parity, offset, target) cells among accepted outputs (the parity is read "
                 "from the output, not assumed)",
@@ -839,6 +858,11 @@ def main():
         "words of the output",
         "ascending order of RELR entries is reported (relr_tables_not_ascending), not demanded",
         "AArch64 outputs are judged statically only",
+        "init/fini/ctors/dtors/.tdata members are judged statically only (the loader would call "
+        "the slots); .data / .data.rel.ro / custom-section members of x86-64 PIE are also run",
+        "wild's slot order for .ctors/.dtors is expected to be GNU ld's (reversed inside each "
+        "input section); on AArch64, where only lld is available and lld does not merge .ctors, "
+        "that expectation rests on the x86-64 calibration",
     ]
     chk.finish()
 
